@@ -201,6 +201,14 @@ def run(fx, rep, tier):
         rep.obls.append(o)
     for f in sub.floors:
         rep.floors.append(f)
+    rep.rule("C03-R7", "a product or quotient keeps its quantity when units are re-derived: reconstruct sheds from the value exactly "
+                       "the power of the unit it inserts (shared with C04-R3)")
+    from . import c04
+    sub = type(rep)(rep.prop, rep.tier)
+    c04.r3_reconstruct(facts, sub)
+    for o in sub.obls:
+        o["rule"] = "C03-R7"
+        rep.obls.append(o)
     if "rel" in fx:
         sub = type(rep)(rep.prop, rep.tier)
         r2_r3_factor(fx["rel"], sub, "quick")
